@@ -1,10 +1,8 @@
 
 from __future__ import annotations
 
-import re
 from collections.abc import Iterable, Sequence
 from dataclasses import dataclass
-from re import Pattern
 
 __all__ = ['ListEntry', 'ListTree']
 
@@ -82,14 +80,11 @@ class ListTree:
 
     """
 
-    _wildcards = re.compile(r'([\*\%])')
-
-    __slots__ = ['_delimiter', '_no_delimiter', '_root', '_marked']
+    __slots__ = ['_delimiter', '_root', '_marked']
 
     def __init__(self, delimiter: str) -> None:
         super().__init__()
         self._delimiter = delimiter
-        self._no_delimiter = '[^' + re.escape(delimiter) + ']*?'
         self._root = _TreeNode('')
         self._marked: dict[str, bool] = {}
 
@@ -191,18 +186,38 @@ class ListTree:
         for entry in self._iter(self._root, ''):
             yield entry
 
-    def _get_pattern(self, query: str) -> tuple[Pattern[str], Pattern[str]]:
-        pattern_parts: list[str] = []
-        for part in self._wildcards.split(query):
-            if part == '*':
-                pattern_parts.append('.*?')
-            elif part == '%':
-                pattern_parts.append(self._no_delimiter)
-            else:
-                pattern_parts.append(re.escape(part))
-        pattern = '^' + ''.join(pattern_parts) + r'\Z'
-        return (re.compile(pattern, re.DOTALL),
-                re.compile(pattern, re.DOTALL | re.IGNORECASE))
+    def _matches(self, query: str, name: str) -> bool:
+        # Dynamic programming instead of a regular expression: patterns like
+        # ``*a*a*a*b`` make a backtracking matcher take exponential time.
+        delimiter = self._delimiter
+        states = {0}
+        for char in name:
+            next_states: set[int] = set()
+            for idx in self._expand(query, states):
+                if idx == len(query):
+                    continue
+                wildcard = query[idx]
+                if wildcard == '*':
+                    next_states.add(idx)
+                elif wildcard == '%':
+                    if char != delimiter:
+                        next_states.add(idx)
+                elif wildcard == char:
+                    next_states.add(idx + 1)
+            if not next_states:
+                return False
+            states = next_states
+        return len(query) in self._expand(query, states)
+
+    @classmethod
+    def _expand(cls, query: str, states: set[int]) -> set[int]:
+        # A wildcard may also match nothing.
+        expanded = set(states)
+        for idx in sorted(states):
+            while idx < len(query) and query[idx] in '*%':
+                idx += 1
+                expanded.add(idx)
+        return expanded
 
     def list_matching(self, ref_name: str, filter_: str) \
             -> Iterable[ListEntry]:
@@ -213,10 +228,10 @@ class ListTree:
             filter_: Mailbox name with possible wildcards.
 
         """
-        canonical, canonical_i = self._get_pattern(ref_name + filter_)
+        query = ref_name + filter_
         for entry in self.list():
             if entry.name == 'INBOX':
-                if canonical_i.match('INBOX'):
+                if self._matches(query.upper(), 'INBOX'):
                     yield entry
-            elif canonical.match(entry.name):
+            elif self._matches(query, entry.name):
                 yield entry
